@@ -116,7 +116,7 @@ def _search_blocks_for_fe(input_path: str, thread_idx: int, block_starts: List[i
                         except BaseException:
                             pass
                     # Convert the Timestamp to an integer.
-                    p1_time_raw = Timestamp._INVALID if math.isnan(p1_time.seconds) else int(p1_time.seconds)
+                    p1_time_raw = Timestamp._INVALID if math.isnan(p1_time.seconds) else min(int(p1_time.seconds), Timestamp._INVALID)
                     message_end = absolute_offset + header.get_message_size()
                     if _logger.isEnabledFor(logging.getTraceLevel(depth=3)):
                         _logger.trace(f'Thread {thread_idx}, block {i}: message={header.message_type.to_string()}, '
